@@ -71,6 +71,16 @@ def run(facts, rep, tier):
     rep.floor("C04.F", "randomizing/PRF/input variants", len(prot), 6)
     vidx = {n: i for i, n in vs}
 
+    fold_and_merge_guards(facts, rep, tb, vidx, prot)
+    uniquify(facts, rep, tb, vs, vidx)
+    pipeline(facts, rep)
+    randomizing_complete(facts, rep, tb, vs, vidx)
+    constructors(facts, rep)
+    dangling(facts, rep, vs, vidx, tb)
+
+
+def fold_and_merge_guards(facts, rep, tb, vidx, prot):
+    """C04.F / C04.D for the given protected variants (shared with C06 for the variants whose evaluation draws randomness)"""
     # ---------------------------------------------------------------- C04.F
     for name, why in prot:
         v = tb["is_const_optimizable"][name]
@@ -133,12 +143,6 @@ def run(facts, rep, tier):
         rep.ob("C04.D", "optimize_graph_duplicates|positive:Add",
                any(c and c.startswith("std::collections::HashMap") and c.endswith("::get") for b, c in res.reachable_calls()),
                "positive control: under Operation::Add the signature lookup is reachable", dd.loc())
-
-    uniquify(facts, rep, tb, vs, vidx)
-    pipeline(facts, rep)
-    randomizing_complete(facts, rep, tb, vs, vidx)
-    constructors(facts, rep)
-    dangling(facts, rep, vs, vidx, tb)
 
 
 # -------------------------------------------------------------------- C04.U
@@ -340,6 +344,22 @@ def touches_prng(facts, body, blocks, depth=0, seen=None):
                     if touches_prng(facts, cb, range(cb.nblocks()), depth + 1, seen):
                         return True
     return False
+
+
+def prng_variants(facts, vs):
+    """variants whose SimpleEvaluator arm draws from the evaluator's PRNG (ground truth read from the evaluator)"""
+    ev = None
+    for n, b in facts.bodies.items():
+        if n.endswith("::evaluate_node") and "SimpleEvaluator" in n and b.impl and b.impl.get("trait"):
+            ev = b
+    if ev is None:
+        return None
+    out = []
+    for idx, name in vs:
+        res = V.Interp(facts, idx).run(ev)
+        if touches_prng(facts, ev, sorted(res.normal_blocks())):
+            out.append(name)
+    return out
 
 
 def randomizing_complete(facts, rep, tb, vs, vidx):
